@@ -67,24 +67,23 @@ func (t *Transfer) ReadTampered(maxAfterErr int) (TamperObs, *Problem) {
 	}
 }
 
-// IsTailCut reports whether edited is the original byte stream cut at a frame boundary (trailing frames
-// lost, nothing else changed): indistinguishable, for a channel without an authenticated end-of-stream
-// marker, from a writer that stopped there.
-func IsTailCut(orig [][]byte, edited []byte) bool {
+// IsTruncation reports whether edited is a strict prefix of the original byte stream (bytes lost at the
+// end, nothing else changed), and whether the cut falls on a frame boundary. A cut at a frame boundary is
+// indistinguishable, for a channel without an authenticated end-of-stream marker, from a writer that
+// stopped there; the only "error" a reader can get for it is the end of the stream itself.
+func IsTruncation(orig [][]byte, edited []byte) (prefix, atBoundary bool) {
+	full := Join(orig)
+	if len(edited) >= len(full) || !bytes.Equal(full[:len(edited)], edited) {
+		return false, false
+	}
 	n := 0
-	for i := 0; ; i++ {
+	for _, f := range orig {
 		if n == len(edited) {
-			return i < len(orig) // strictly shorter
-		}
-		if i == len(orig) || n > len(edited) {
-			return false
-		}
-		f := orig[i]
-		if len(edited)-n < len(f) || !bytes.Equal(edited[n:n+len(f)], f) {
-			return false
+			return true, true
 		}
 		n += len(f)
 	}
+	return true, false
 }
 
 // ErrClass maps an error to a short, stable class name for outcome histograms.
